@@ -607,4 +607,15 @@ P_C16(c) ==
            LET o == SelectSeq(Codes(AllOut(run.res)), LAMBDA k : ~IsWsCode(k) /\ ~IsBoxCode(k) /\ k # GV /\ k # STRIKE)
                v == SelectSeq(NonWs(FlowTextSeq(Dom1(c, run))), LAMBDA k : k # GV /\ ~IsBoxCode(k) /\ k # STRIKE) IN
            IF HasTable(Dom1(c, run)) /\ ~CfgOf(run.cfg).raw THEN BagOf(o) = BagOf(v) ELSE o = v
+
+(* ---- C01: rendering is total ----------------------------------------------------------------------- *)
+\* every call returns text or the too-narrow error (a CSS parse error only from add_css / add_agent_css);
+\* a panic, crash or timeout is recorded by the harness as such and is no result of the specification
+P_C01(c) ==
+  /\ "crash" \notin DOMAIN c
+  /\ \A i \in 1..Len(c.runs) :
+        LET run == c.runs[i] IN
+        \/ run.res.k \in {"ok", "narrow"}
+        \/ run.res.k = "csserr" /\ (HasOp(run.cfg, "css") \/ HasOp(run.cfg, "agentcss"))
+  /\ "hist" \in DOMAIN c => \A i \in 1..Len(c.hist) : c.hist[i].res.k \in {"ok", "narrow"}
 =============================================================================
